@@ -386,3 +386,123 @@ pub fn record(args: &[String], out: &mut Out) {
     }
     out.add("events", events);
 }
+
+/// Variable-length parts at the CompactSize boundaries (PsetCodec.SizedCases): round trip, fixpoint, and the
+/// value length on the wire against the specification's framing formula (measured by the own reader).
+pub fn sized(args: &[String], out: &mut Out) {
+    use elements::bitcoin::bip32::{ChildNumber, DerivationPath, Fingerprint};
+    use elements::pset::raw::{Key, ProprietaryKey};
+    use elements::taproot::TapLeafHash;
+    let cases = read_ndjson(&arg(args, "--cases").expect("--cases"));
+    let tables = &read_ndjson(&arg(args, "--tables").expect("--tables"))[0];
+    let seed = arg_u64(args, "--seed", 1);
+    let path_of = |r: &mut Rng, n: usize| -> (Fingerprint, DerivationPath) {
+        let v: Vec<ChildNumber> = (0..n).map(|i| if i % 3 == 0 { ChildNumber::from_hardened_idx((i as u32 * 7) % 1000).unwrap() } else { ChildNumber::from_normal_idx(i as u32).unwrap() }).collect();
+        let f = pools::rbytes(r, 4);
+        (Fingerprint::from([f[0], f[1], f[2], f[3]]), DerivationPath::from(v))
+    };
+    for (ci, c) in cases.iter().enumerate() {
+        out.count("distinct_cases");
+        out.count("evaluations");
+        let (kind, field, part) = (c["kind"].as_str().unwrap(), c["field"].as_str().unwrap(), c["part"].as_str().unwrap());
+        let n = c["n"].as_u64().unwrap() as usize;
+        let cls = format!("{}.{}/{}={}", kind, field, part, n);
+        if ci % 40 == 3 { out.sample(c.clone()); }
+        let mut r = rng(seed, 0x0702_0000 + ci as u64);
+        let res = guard(|| {
+            let mut bad = vec![];
+            let mut p = Pset::new_v2();
+            p.add_input(base_input(&mut r, 0));
+            p.add_output(base_output(&mut r, "explicit"));
+            let bytes = pools::rbytes(&mut r, n);
+            match (kind, field, part) {
+                ("input", "redeem_script", _) => p.inputs_mut()[0].redeem_script = Some(elements::Script::from(bytes)),
+                ("input", "witness_script", _) => p.inputs_mut()[0].witness_script = Some(elements::Script::from(bytes)),
+                ("input", "final_script_sig", _) => p.inputs_mut()[0].final_script_sig = Some(elements::Script::from(bytes)),
+                ("input", "final_script_witness", "item") => p.inputs_mut()[0].final_script_witness = Some(vec![bytes]),
+                ("input", "final_script_witness", "items") => p.inputs_mut()[0].final_script_witness = Some(vec![vec![7u8]; n]),
+                ("input", "partial_sigs", _) => { p.inputs_mut()[0].partial_sigs.insert(btc_pk(&mut r), bytes); }
+                ("input", "bip32_derivation", _) => { let ks = path_of(&mut r, n); p.inputs_mut()[0].bip32_derivation.insert(btc_pk(&mut r), ks); }
+                ("input", "tap_key_origins", "leaves") | ("output", "tap_key_origins", "leaves") => {
+                    let leaves: Vec<TapLeafHash> = (0..n).map(|_| TapLeafHash::from_byte_array(pools::bytes32(&mut r))).collect();
+                    let v = (leaves, path_of(&mut r, 1));
+                    if kind == "input" { p.inputs_mut()[0].tap_key_origins.insert(xonly(&mut r), v); } else { p.outputs_mut()[0].tap_key_origins.insert(xonly(&mut r), v); }
+                }
+                ("input", "tap_key_origins", "path") => { let v = (vec![TapLeafHash::from_byte_array(pools::bytes32(&mut r))], path_of(&mut r, n)); p.inputs_mut()[0].tap_key_origins.insert(xonly(&mut r), v); }
+                ("input", "tap_scripts", _) => {
+                    let s = elements::Script::from(bytes);
+                    let info = elements::taproot::TaprootBuilder::new().add_leaf(0, s.clone()).unwrap().finalize(pools::secp(), xonly(&mut r)).expect("finalize");
+                    let sv = (s, elements::taproot::LeafVersion::default());
+                    let cb = info.control_block(&sv).unwrap();
+                    p.inputs_mut()[0].tap_scripts.insert(cb, sv);
+                }
+                ("input", "sha256_preimages", _) => { use elements::hashes::Hash; p.inputs_mut()[0].sha256_preimages.insert(elements::hashes::sha256::Hash::hash(&bytes), bytes); }
+                ("input", "pegin_txout_proof", _) => p.inputs_mut()[0].pegin_txout_proof = Some(bytes),
+                ("input", "pegin_claim_script", _) => p.inputs_mut()[0].pegin_claim_script = Some(elements::Script::from(bytes)),
+                ("input", "pegin_witness", "item") => p.inputs_mut()[0].pegin_witness = Some(vec![bytes]),
+                ("input", "pegin_witness", "items") => p.inputs_mut()[0].pegin_witness = Some(vec![vec![9u8]; n]),
+                ("input", "witness_utxo", _) => { let mut o = explicit_txout(&mut r); o.script_pubkey = elements::Script::from(bytes); p.inputs_mut()[0].witness_utxo = Some(o); }
+                (_, "proprietary", _) => {
+                    let k = match part { "prefix" => ProprietaryKey { prefix: bytes.clone(), subtype: 3, key: vec![1, 2] }, "key" => ProprietaryKey { prefix: b"xy".to_vec(), subtype: 3, key: bytes.clone() }, _ => ProprietaryKey { prefix: b"xy".to_vec(), subtype: 3, key: vec![1] } };
+                    let v = if part == "value" { bytes.clone() } else { vec![5, 6, 7] };
+                    match kind { "input" => { p.inputs_mut()[0].proprietary.insert(k, v); } "output" => { p.outputs_mut()[0].proprietary.insert(k, v); } _ => { p.global.proprietary.insert(k, v); } }
+                }
+                (_, "unknown", _) => {
+                    let ty = match kind { "input" => 0x6e, "output" => 0x55, _ => 0x7f };
+                    let (k, v) = if part == "key" { (Key { type_value: ty, key: bytes.clone() }, vec![1, 2, 3]) } else { (Key { type_value: ty, key: vec![4] }, bytes.clone()) };
+                    match kind { "input" => { p.inputs_mut()[0].unknown.insert(k, v); } "output" => { p.outputs_mut()[0].unknown.insert(k, v); } _ => { p.global.unknown.insert(k, v); } }
+                }
+                ("output", "redeem_script", _) => p.outputs_mut()[0].redeem_script = Some(elements::Script::from(bytes)),
+                ("output", "witness_script", _) => p.outputs_mut()[0].witness_script = Some(elements::Script::from(bytes)),
+                ("output", "script", _) => p.outputs_mut()[0].script_pubkey = elements::Script::from(bytes),
+                ("output", "tap_tree", "leaf") => {
+                    let b = elements::taproot::TaprootBuilder::new().add_leaf(0, elements::Script::from(bytes)).unwrap();
+                    p.outputs_mut()[0].tap_tree = Some(elements::pset::TapTree::from_inner(b).expect("complete"));
+                }
+                ("output", "tap_tree", "leaves") => {
+                    // a comb: leaf depths 1, 2, .., n-1, n-1
+                    let depths: Vec<usize> = if n == 1 { vec![0] } else { (1..n).chain(std::iter::once(n - 1)).collect() };
+                    let mut b = elements::taproot::TaprootBuilder::new();
+                    for (k, d) in depths.iter().enumerate() { b = b.add_leaf(*d, elements::Script::from(vec![0x51, (k % 251) as u8, (k / 251) as u8])).expect("comb"); }
+                    p.outputs_mut()[0].tap_tree = Some(elements::pset::TapTree::from_inner(b).expect("complete"));
+                }
+                ("output", "bip32_derivation", _) => { let ks = path_of(&mut r, n); p.outputs_mut()[0].bip32_derivation.insert(btc_pk(&mut r), ks); }
+                ("global", "scalars", _) => { for _ in 0..n { p.global.scalars.push(pools::tweak(&mut r)); } }
+                ("global", "xpub", _) => {
+                    let secp = elements::bitcoin::secp256k1::Secp256k1::new();
+                    let (fp, path) = { let v: Vec<ChildNumber> = (0..n).map(|i| ChildNumber::from_normal_idx(i as u32).unwrap()).collect(); (xpub(&mut r).fingerprint(), DerivationPath::from(v)) };
+                    let x = xpub(&mut r).derive_pub(&secp, &path).expect("derive");
+                    p.global.xpub.insert(x, (fp, path));
+                }
+                x => panic!("sized part {:?}", x),
+            }
+            roundtrip_checks(&p, &format!("sized/{}", cls), &mut bad);
+            let want = c["vlen"].as_u64().unwrap();
+            if want != 1_000_000_000 {
+                match kv_parse(&serialize(&p)) {
+                    None => bad.push((format!("C07/framing/sized/{}", cls), "own reader cannot parse the serialization".into())),
+                    Some(maps) => {
+                        let (tk, idx) = match kind { "global" => ("g", 0), "input" => ("i", 1), _ => ("o", 2) };
+                        let fname = if field == "script" { "script" } else { field };
+                        let hits: Vec<usize> = maps.get(idx).map(|m| m.iter().filter(|(k, _)| classify(&tables[tk], k) == fname).map(|(_, v)| v.len()).collect()).unwrap_or_default();
+                        if hits.is_empty() && !(kind == "global" && field == "scalars") {
+                            bad.push((format!("C07/wire-type/sized/{}", cls), "field not found under its specified wire type".into()));
+                        } else if !hits.iter().any(|l| *l as u64 == want) {
+                            bad.push((format!("C07/framing/value-length/{}", cls), format!("value lengths on the wire {:?}, specification {}", hits, want)));
+                        }
+                    }
+                }
+            }
+            if kind == "global" && field == "scalars" {
+                let q: Pset = deserialize(&serialize(&p)).map_err(|e| e.to_string()).unwrap_or_else(|_| Pset::new_v2());
+                if q.global.scalars != p.global.scalars { bad.push((format!("C07/roundtrip/scalars-order-or-count/{}", cls), String::new())); }
+            }
+            bad
+        });
+        let case = json!({"case": c, "seed": seed, "case_index": ci});
+        match res {
+            Ok(bad) => for (k, d) in bad { out.viol(&k, case.clone(), d); },
+            Err(pn) => out.viol(&format!("C07/panic/sized/{}/{}", cls, last_panic_loc()), case, pn),
+        }
+    }
+}
